@@ -182,7 +182,11 @@ func c08(args []string) int {
 			if err := json.Unmarshal(raw, &j); err != nil {
 				return c08Res{Err: err.Error()}
 			}
-			return c08Exec(j)
+			r, ok := confirm(func() c08Res { return c08Exec(j) }, func(r c08Res) bool { return r.Clause != "" })
+			if !ok {
+				return c08Res{Err: unstableMsg}
+			}
+			return r
 		})
 	}
 	f := explore.ParseFlags("C08", args, nil)
